@@ -33,9 +33,40 @@ pub struct PowerCase {
 	pub only: Option<(StopPoint, u64)>,
 }
 
+pub struct PowerImage {
+	pub kept: u64,
+	pub dropped: u64,
+	pub cut_inside: bool,
+	pub unsynced_logs: u64,
+	pub anchors_kept: u64,
+	/// per log file: (name, current length, durable length, kept length)
+	pub log_cuts: Vec<(String, usize, usize, usize)>,
+}
+
 /// mode: 0 none of the dirty pages, 1 all, 2.. random subset
 pub fn build_power_image(work: &Path, shadow: &Path, img: &Path, seed: u64, mode: u8, log_durable_only: bool) -> std::io::Result<(u64, u64, bool)> {
+	build_power_image_ex(work, shadow, img, seed, mode, log_durable_only, false, &Default::default()).map(|r| (r.kept, r.dropped, r.cut_inside))
+}
+
+/// First bytes of a log file that recovery needs to order the files (record tag + record id).
+pub const LOG_ANCHOR: usize = 9;
+
+/// `keep_anchor`: when two or more log files hold unsynced bytes, a file whose anchor is not
+/// durable keeps at least its anchor (known finding `power-loss-loses-older-unsynced-log`:
+/// without it the files that follow replay alone); such raised cuts are counted.
+pub fn build_power_image_ex(work: &Path, shadow: &Path, img: &Path, seed: u64, mode: u8, log_durable_only: bool, keep_anchor: bool, being_truncated: &std::collections::BTreeSet<String>) -> std::io::Result<PowerImage> {
 	use std::os::unix::fs::FileExt;
+	let mut unsynced_logs = 0u64;
+	let mut anchors_kept = 0u64;
+	let mut log_cuts = Vec::new();
+	for (name, size) in file_sizes(work) {
+		if is_log(&name) {
+			let d = std::fs::metadata(shadow.join(&name)).map(|m| m.len()).unwrap_or(0);
+			if size > d && !being_truncated.contains(&name) {
+				unsynced_logs += 1;
+			}
+		}
+	}
 	let _ = std::fs::remove_dir_all(img);
 	std::fs::create_dir_all(img)?;
 	let mut rng = seed;
@@ -55,14 +86,21 @@ pub fn build_power_image(work: &Path, shadow: &Path, img: &Path, seed: u64, mode
 			let durable_len = std::fs::metadata(&sh).map(|m| m.len() as usize).unwrap_or(0).min(current.len());
 			let unsynced = current.len() - durable_len;
 			let keep = match mode {
-				_ if log_durable_only => durable_len,
+				_ if log_durable_only || being_truncated.contains(&name) => durable_len,
 				0 => durable_len,
 				1 => current.len(),
 				_ => durable_len + (next() as usize) % (unsynced + 1),
 			};
+			let keep = if keep_anchor && unsynced_logs >= 2 && keep < LOG_ANCHOR.min(current.len()) {
+				anchors_kept += 1;
+				LOG_ANCHOR.min(current.len())
+			} else {
+				keep
+			};
 			if keep > durable_len && keep < current.len() {
 				cut_inside = true;
 			}
+			log_cuts.push((name.clone(), current.len(), durable_len, keep));
 			std::fs::write(img.join(&name), &current[..keep])?;
 		} else if name.starts_with("table_") || name.starts_with("index_") || name.starts_with("refcount_") {
 			// start from the durable copy (absent = zeros), same length as the current file
@@ -95,7 +133,7 @@ pub fn build_power_image(work: &Path, shadow: &Path, img: &Path, seed: u64, mode
 			std::fs::copy(&cur, img.join(&name))?;
 		}
 	}
-	Ok((kept, dropped, cut_inside))
+	Ok(PowerImage { kept, dropped, cut_inside, unsynced_logs, anchors_kept, log_cuts })
 }
 
 pub fn check_power_point(sc: &Scenario, sp: &StopPoint, image_seeds: &[u64], dir: &Path, out: &mut CaseOut) -> Res<u64> {
@@ -460,6 +498,9 @@ pub struct ThreadCase {
 	pub pauses_us: Vec<u16>,
 	pub stride: u8,
 	pub seed: u64,
+	/// delay before the sync of a log file (see `iotrack::LOGSYNC_DELAY_US`)
+	#[serde(default)]
+	pub logsync_delay_us: u16,
 }
 
 fn thread_case() -> impl Strategy<Value = ThreadCase> {
@@ -474,8 +515,8 @@ fn thread_case() -> impl Strategy<Value = ThreadCase> {
 }
 
 fn thread_case_plain() -> impl Strategy<Value = ThreadCase> {
-	(mixed_cfg(2, false), prop_oneof![1 => Just(0u16), 3 => 50u16..3000], proptest::collection::vec(prop_oneof![1 => Just(0u16), 3 => 100u16..1500, 2 => 1500u16..6000], 1..6), 1u8..3, any::<u64>()).prop_flat_map(
-		|(mut cfg, msync_delay_us, pauses_us, stride, seed)| {
+	(mixed_cfg(2, false), prop_oneof![1 => Just(0u16), 3 => 50u16..3000], proptest::collection::vec(prop_oneof![1 => Just(0u16), 3 => 100u16..1500, 2 => 1500u16..6000], 1..6), 1u8..3, any::<u64>(), prop_oneof![1 => Just(0u16), 2 => 200u16..4000]).prop_flat_map(
+		|(mut cfg, msync_delay_us, pauses_us, stride, seed, logsync_delay_us)| {
 			cfg.always_flush = true;
 			cfg.sync_data = true;
 			cfg.sync_wal = true;
@@ -485,6 +526,7 @@ fn thread_case_plain() -> impl Strategy<Value = ThreadCase> {
 				pauses_us: pauses_us.clone(),
 				stride,
 				seed,
+				logsync_delay_us,
 			})
 		},
 	)
@@ -505,6 +547,7 @@ pub fn run_thread_case(case: &ThreadCase, dir: &Path) -> CaseResult {
 	}
 	std::fs::create_dir_all(&work).map_err(|e| Failure::new("harness-io", e.to_string()))?;
 	iotrack::start_threaded(&work, &shadow, iotrack::SnapCfg { dir: snaps_dir.clone(), max: 70, stride: case.stride as u64, seed: case.seed }, case.msync_delay_us as u64);
+	iotrack::LOGSYNC_DELAY_US.store(case.logsync_delay_us as u64, Ordering::SeqCst);
 	let r = (|| -> Res<ImageInfo> {
 		let mut it = Interp::new(&sc.cfg, &work, Interp::universe_of(sc));
 		it.background = true;
@@ -559,13 +602,23 @@ pub fn run_thread_case(case: &ThreadCase, dir: &Path) -> CaseResult {
 	for s in &snaps {
 		let mut info_i = info.clone();
 		info_i.committed = (s.issued as usize).min(info.committed);
+		let pre = std::env::var("PDBV_KEEP_FAILED").ok().map(|keep| Path::new(&keep).join(format!("pre-{}-{}", std::process::id(), s.seq)));
+		if let Some(pre) = &pre {
+			let _ = copy_dir(&s.dir, pre);
+		}
 		let rec = recover_and_check(sc, &info_i, &sp, &s.dir, dir, lower).map_err(|f| {
+			if let Ok(keep) = std::env::var("PDBV_KEEP_FAILED") {
+				let d = Path::new(&keep).join(format!("failed-{}-{}", std::process::id(), s.seq));
+				let _ = copy_dir(&s.dir, &d);
+				let _ = std::fs::write(d.join("CASE.json"), serde_json::to_string(&(sc, &s.what, &s.log_cuts, s.issued, lower)).unwrap_or_default());
+			}
 			Failure::new(
 				format!("power-loss-threaded:{}", f.sig),
 				format!(
-					"power-loss image #{} taken at '{}' ({} commits started, {} dirty pages kept / {} dropped): {}{}",
+					"power-loss image #{} taken at '{}'{} ({} commits started, {} dirty pages kept / {} dropped): {}{}",
 					s.seq,
 					s.what,
+					if s.volatile { format!(" [log files (name, length, durable, kept): {:?}]", s.log_cuts) } else { String::new() },
 					s.issued,
 					s.kept_pages,
 					s.dropped_pages,
@@ -575,8 +628,20 @@ pub fn run_thread_case(case: &ThreadCase, dir: &Path) -> CaseResult {
 			)
 		})?;
 		// the lowest prefix the observation is compatible with (ambiguity must not raise the bound)
+		if let Some(pre) = &pre {
+			let _ = std::fs::remove_dir_all(pre);
+		}
 		let p = *rec.candidates.last().unwrap_or(&rec.prefix_index);
-		if p > lower {
+		if s.volatile {
+			out.count("threaded_images_with_unsynced_log_bytes", 1);
+			if s.unsynced_logs >= 2 {
+				out.count("threaded_images_with_two_unsynced_log_files", 1);
+				out.label("two-log-files-unsynced-at-once");
+			}
+			out.excluded_known_count(s.anchors_kept);
+		}
+		// what an image with unsynced log bytes recovers was not necessarily durable
+		if p > lower && !s.volatile {
 			lower = p;
 			lower_from = s.what.clone();
 		}
